@@ -765,7 +765,7 @@ def plan(tier, seed, args):
     if tier == "quick":
         n_ni, n_gen, n_ev = 110, 60, 50
     else:
-        n_ni, n_gen, n_ev = 3000, 1500, 800
+        n_ni, n_gen, n_ev = 6000, 3000, 1500
     if args.cases is not None:
         n_ni, n_gen, n_ev = args.cases, args.cases // 2, args.cases // 2
     for i in range(n_ni):
